@@ -23,29 +23,26 @@ impl Resolve for TableResolve {
     fn get_data_or_decode(&self, _: PlainRef, _: Range<usize>, _: &[StreamFilter]) -> Result<Arc<[u8]>> { Err(PdfError::Reference) }
 }
 
-/// shape description: node i = (parent index or usize::MAX, kids as object numbers; empty + leaf flag)
+/// shape description: node i = (parent index or usize::MAX, leaf?, kids as object numbers, /Count = number of leaves below);
+/// parents come before their children. The expected answer is `order`: the leaves in depth-first document order.
 #[derive(Clone, Copy)]
-struct N { parent: usize, leaf: bool, kids: &'static [u64] }
+struct N { parent: usize, leaf: bool, kids: &'static [u64], count: u32 }
 
-fn leaves_under(spec: &[N], i: usize, out: &mut Vec<usize>) {
-    if spec[i].leaf { out.push(i); return; }
-    for &k in spec[i].kids { leaves_under(spec, k as usize, out); }
-}
 fn build(spec: &[N]) -> Vec<RcRef<PagesNode>> {
     let mut nodes: Vec<RcRef<PagesNode>> = Vec::with_capacity(spec.len());
-    for i in 0..spec.len() {
+    let mut i = 0;
+    while i < spec.len() {
         let n = spec[i];
         let node = if n.leaf {
             PagesNode::Leaf(Page::new(PagesRc(nodes[n.parent].clone())))
         } else {
-            let mut l = Vec::new();
-            leaves_under(spec, i, &mut l);
             PagesNode::Tree(PageTree {
                 parent: if n.parent == usize::MAX { None } else { Some(PagesRc(nodes[n.parent].clone())) },
                 kids: n.kids.iter().map(|&k| Ref::from_id(k)).collect(),
-                count: l.len() as u32, resources: None, media_box: None, crop_box: None })
+                count: n.count, resources: None, media_box: None, crop_box: None })
         };
         nodes.push(RcRef::new(PlainRef { id: i as u64, gen: 0 }, Arc::new(node)));
+        i += 1;
     }
     nodes
 }
@@ -53,10 +50,8 @@ fn page_ptr(n: &RcRef<PagesNode>) -> *const Page {
     match &**n.data() { PagesNode::Leaf(l) => l as *const Page, _ => std::ptr::null() }
 }
 /// page(i) for every i in 0..=count+2 is the i-th leaf in document order / PageOutOfBounds beyond
-fn run_shape(spec: &[N]) {
+fn run_shape(spec: &[N], order: &[usize]) {
     let nodes = build(spec);
-    let mut order = Vec::new();
-    leaves_under(spec, 0, &mut order);
     let count = order.len() as u32;
     let r = TableResolve { nodes: nodes.clone() };
     let nr: u32 = kani::any();
@@ -74,30 +69,36 @@ fn run_shape(spec: &[N]) {
 }
 const R: usize = usize::MAX;
 macro_rules! shape {
-    ($name:ident, [$( ($p:expr, $leaf:expr, [$($k:expr),*]) ),* $(,)?]) => {
+    ($name:ident, [$( ($p:expr, $leaf:expr, [$($k:expr),*], $c:expr) ),* $(,)?], [$($o:expr),*]) => {
         #[kani::proof]
         #[kani::stub(std::fmt::format, nofmt)]
         #[kani::stub(std::hash::RandomState::new, fixed_rs)]
-        fn $name() { run_shape(&[ $( N { parent: $p, leaf: $leaf, kids: &[$($k),*] } ),* ]); }
+        fn $name() { run_shape(&[ $( N { parent: $p, leaf: $leaf, kids: &[$($k),*], count: $c } ),* ], &[$($o),*]); }
     };
 }
 // root[L, L]
-shape!(types_page_flat2, [(R, false, [1, 2]), (0, true, []), (0, true, [])]);
+shape!(types_page_flat2, [(R, false, [1, 2], 2), (0, true, [], 1), (0, true, [], 1)], [1, 2]);
 // root[T[L, L], L]
-shape!(types_page_nested, [(R, false, [1, 2]), (0, false, [3, 4]), (0, true, []), (1, true, []), (1, true, [])]);
+shape!(types_page_nested, [(R, false, [1, 2], 3), (0, false, [3, 4], 2), (0, true, [], 1), (1, true, [], 1), (1, true, [], 1)], [3, 4, 2]);
 // root[L, T[], T[L], L]   (empty intermediate node)
-shape!(types_page_empty_mid, [(R, false, [1, 2, 3, 4]), (0, true, []), (0, false, []), (0, false, [5]), (0, true, []), (3, true, [])]);
+shape!(types_page_empty_mid, [(R, false, [1, 2, 3, 4], 3), (0, true, [], 1), (0, false, [], 0), (0, false, [5], 1), (0, true, [], 1),
+    (3, true, [], 1)], [1, 5, 4]);
 // root[T[L, L, L], T[L, T[L, L]], L]
-shape!(types_page_bushy, [(R, false, [1, 2, 3]), (0, false, [4, 5, 6]), (0, false, [7, 8]), (0, true, []),
-    (1, true, []), (1, true, []), (1, true, []), (2, true, []), (2, false, [9, 10]), (8, true, []), (8, true, [])]);
+shape!(types_page_bushy, [(R, false, [1, 2, 3], 7), (0, false, [4, 5, 6], 3), (0, false, [7, 8], 3), (0, true, [], 1),
+    (1, true, [], 1), (1, true, [], 1), (1, true, [], 1), (2, true, [], 1), (2, false, [9, 10], 2), (8, true, [], 1), (8, true, [], 1)],
+    [4, 5, 6, 7, 9, 10, 3]);
 // root[T[T[T[L]]], L]
-shape!(types_page_chain4, [(R, false, [1, 5]), (0, false, [2]), (1, false, [3]), (2, false, [4]), (3, true, []), (0, true, [])]);
+shape!(types_page_chain4, [(R, false, [1, 5], 2), (0, false, [2], 1), (1, false, [3], 1), (2, false, [4], 1), (3, true, [], 1),
+    (0, true, [], 1)], [4, 5]);
 // 13 levels: root -> 12 nested single-kid trees -> leaf, plus a second leaf at the root
-shape!(types_page_chain13, [(R, false, [1, 14]), (0, false, [2]), (1, false, [3]), (2, false, [4]), (3, false, [5]), (4, false, [6]),
-    (5, false, [7]), (6, false, [8]), (7, false, [9]), (8, false, [10]), (9, false, [11]), (10, false, [12]), (11, false, [13]),
-    (12, true, []), (0, true, [])]);
+shape!(types_page_chain13, [(R, false, [1, 14], 2), (0, false, [2], 1), (1, false, [3], 1), (2, false, [4], 1), (3, false, [5], 1),
+    (4, false, [6], 1), (5, false, [7], 1), (6, false, [8], 1), (7, false, [9], 1), (8, false, [10], 1), (9, false, [11], 1),
+    (10, false, [12], 1), (11, false, [13], 1), (12, true, [], 1), (0, true, [], 1)], [13, 14]);
+// root[T[], L, T[L, L]]   (as many kids as pages, but not all kids are leaves)
+shape!(types_page_kids_eq_count, [(R, false, [1, 2, 3], 3), (0, false, [], 0), (0, true, [], 1), (0, false, [4, 5], 2),
+    (3, true, [], 1), (3, true, [], 1)], [2, 4, 5]);
 // root[] (no pages at all)
-shape!(types_page_empty, [(R, false, [])]);
+shape!(types_page_empty, [(R, false, [], 0)], []);
 
 /// descent step for ARBITRARY consistent counts: root with three tree kids whose /Count values are symbolic; each kid has a
 /// single leaf, so the index the kid is asked for is observable (leaf for 0, PageOutOfBounds{page_nr: local index} otherwise)
